@@ -18,6 +18,10 @@ import SimplicityModel.Value
 import SimplicityModel.Infer
 import SimplicityModel.Prog.RoundtripProps
 import SimplicityModel.Prog.JetsElementsProps
+import SimplicityModel.Prog.CommitEnc
+import SimplicityModel.Prog.EncSelf
+import SimplicityModel.Prog.EncConvert
+import SimplicityModel.Prog.InferRename
 
 namespace Props.C01
 open Wire Prog
@@ -89,6 +93,141 @@ theorem roundtrip_partial (ns : List (WNode JetsE.J)) (h0 : ns ≠ []) (hl : ns.
 /-- the Elements jet table the driver runs reads back the name it prints for a jet -/
 theorem elements_ofName_nameOf (j : JetsE.J) : JetsE.ofName (JetsE.nameOf j) = some j :=
   JetsE.ofName_nameOf j
+
+/-- **Round trip of an arbitrary plan along the encoder's node map, structural stage** (about the
+function the driver runs: `Prog.encode`, redeem mode; first stages of `Prog.decodeRedeem`).  Let `p`
+be *any* plan — nodes in any topological order, unused nodes, several nodes with one identity root —
+with annotations `an`, such that children are earlier nodes (`PlanBackward`, what the plan parser
+guarantees), fail/word payloads have wire sizes (`PayloadOk`) and the sharing identities are a
+congruence on the encoder's DAG (`EncCongr`: nodes with equal identity roots have children with
+pairwise equal identity roots — true of identity roots up to SHA-256 collisions, kept as a
+hypothesis since SHA-256 stays abstract).  Let `S` be the final state of the encoder's walk and
+`f t` the position at which the sharing class of node `t` of the encoder's DAG (plan node `i` is
+`2*i`, the hidden pseudo-node of assertion `j` is `2*j+1`) was written.  If the encoder succeeds,
+then the node list `N` it wrote
+
+* is non-empty and well formed (`NodesOk`: child references strictly backwards, payload sizes), so —
+  if it has fewer than 2^32 nodes — the node-list decoder reads exactly `N` back from the program
+  bytes and `close` accepts the padding;
+* passes the decoder's canonical-order check `canonicalOk` (the pointer-sharing post-order walk from
+  the last node yields node `j` at position `j`: no unused node, post-order, nothing unshared);
+* has the root of `p` as its last node, and for every node `t` whose class was written (the root;
+  and with `t` all its children — so every node reachable from the root): node `f t` of `N` is the
+  wire node written for an item with the identity of `t`, and its child references are `f` of the
+  children of `t`.
+
+This is `decode (encode p) ≅ p` along `f` as far as the *structure* goes.  What is still missing for
+the statement `decodeRedeem (encode p) = ok d` with `d.plan[f i]` of the kind of `p[i]`, the same
+arrow, roots, cost and witness value: (1) that `convert` accepts `N` — proved separately,
+`roundtrip_nodemap_convert` below; (2) the types: `Inf.least_of_renaming` (below, `reinference_along_renaming`) reduces it
+to showing that the variable map induced by `f` sends the constraints of `p` onto those of the
+converted plan — needs all nodes of `p` reachable (an unused node can constrain a used one) and equal
+arrows at nodes with equal identity roots; (3) the annotations and the witness stream of the
+converted plan, node by node along `f`; (4) `decodeRedeem`'s identity-root uniqueness check (holds
+since classes are written once).  These remain checked at run time by the driver on every generated
+program (`model-roundtrip-differs` / `model-rejects-own-encoding` would be printed). -/
+theorem roundtrip_nodemap_partial {J : Type} (jc : JetCode J) (ofName : String → Option J) (p : Plan)
+    (an : Array Annot) (wit : Nat → Option (List Bool)) (hsz : an.size = p.size) (hpos : 0 < p.size)
+    (hb : PlanBackward p) (hpl : PayloadOk p) (hcong : EncCongr p an) (pb wb : List Bool)
+    (he : encode jc ofName p an true wit = some (pb, wb)) :
+    let S := (walk (encChildren p true) (encKey p an true) (2 * p.size + 2) (2 * (p.size - 1)) ⟨#[], [], 0⟩).1
+    let f := clsPos (encKey p an true) S
+    ∃ N : List (WNode J), S.outs.toList.mapM (wireOf ofName p) = some N ∧
+      pb = padToByte (encProgram jc N) ∧ N ≠ [] ∧ NodesOk 0 N ∧
+      canonicalOk N.toArray = true ∧
+      (N.length < 2 ^ 32 → ∃ rest, decProgram jc pb = .ok (N, rest) ∧ closeOk rest = true) ∧
+      f (2 * (p.size - 1)) = N.length - 1 ∧
+      (∃ i, Cls (encKey p an true) S (2 * (p.size - 1)) i) ∧
+      (∀ t, EncDom p t → (∃ i, Cls (encKey p an true) S t i) →
+        f t < N.length ∧ wireChildren N.toArray (f t) = (encChildren p true t).map f ∧
+        (∃ o n, S.outs.toList[f t]? = some o ∧ encKey p an true o.node = encKey p an true t ∧
+          N[f t]? = some n ∧ wireOf ofName p o = some n) ∧
+        ∀ c ∈ encChildren p true t, ∃ i, Cls (encKey p an true) S c i) :=
+  Prog.enc_structure jc ofName p an wit hsz hpos hb hpl hcong pb wb he
+
+/-- **… and the conversion stage**: under the same hypotheses and with 256-bit assertion hashes
+(`HashOk`), `convert` accepts the node list `N` the encoder wrote (hidden nodes occur only as one
+child of a `case` node, are pairwise different, the root is not hidden), and the converted plan `q`
+has, at every position, the conversion of the wire node written there — so (`convNode_spec`) node
+`f t` of `q` has the kind of the wire node written for the class of `t`, with the child references
+`f (children of t)` of `roundtrip_nodemap_partial`, assertions restored from `case` + hidden child. -/
+theorem roundtrip_nodemap_convert {J : Type} (nameOf : J → String) (ofName : String → Option J) (p : Plan)
+    (an : Array Annot) (hsz : an.size = p.size) (hpos : 0 < p.size)
+    (hb : PlanBackward p) (hh : HashOk p) (hcong : EncCongr p an) (N : List (WNode J))
+    (hm : (walk (encChildren p true) (encKey p an true) (2 * p.size + 2) (2 * (p.size - 1))
+      ⟨#[], [], 0⟩).1.outs.toList.mapM (wireOf ofName p) = some N) :
+    ∃ q, convert nameOf N.toArray = .ok q ∧ q.size = N.length ∧
+      ∀ (i : Nat) (n : WNode J), N[i]? = some n →
+        ∃ nd, q[i]? = some nd ∧ convNode nameOf N.toArray n = .ok nd := by
+  obtain ⟨q, hq⟩ := enc_convert nameOf ofName p an hsz hpos hb hh hcong N hm
+  obtain ⟨h1, h2, _, _⟩ := convert_spec nameOf N.toArray q hq
+  exact ⟨q, hq, by simpa using h1, fun i n hn => h2 i n (by simpa using hn)⟩
+
+/-- **Types along a node map**: re-inference on renumbered variables.  If a variable map `σ` sends
+the constraints `E` of the original program into and onto the constraints `E'` of the decoded one,
+and variables identified by `σ` had equal inferred types, then inference on `E'` returns the original
+types transported along `σ` — and cannot end in a clash or an occurs-check failure
+(`reinference_returns_original_types` is the case `σ = id`). -/
+theorem reinference_along_renaming {f f' : Nat} {E E' : List Inf.Eqn} {S S' : List Inf.Bind} (σ : Nat → Nat)
+    (himg : ∀ e ∈ E, (e.1.rename σ, e.2.rename σ) ∈ E')
+    (hsur : ∀ e' ∈ E', ∃ e ∈ E, e' = (e.1.rename σ, e.2.rename σ))
+    (h : Inf.unify f E [] = .ok S) (h' : Inf.unify f' E' [] = .ok S')
+    (hwd : ∀ x x', σ x = σ x' → Inf.closeUnit S x = Inf.closeUnit S x') :
+    ∀ x, Inf.closeUnit S' (σ x) = Inf.closeUnit S x :=
+  Inf.least_of_renaming σ himg hsur h h' hwd
+
+theorem reinference_along_renaming_accepts {f f' : Nat} {E E' : List Inf.Eqn} {S : List Inf.Bind} (σ : Nat → Nat)
+    (hsur : ∀ e' ∈ E', ∃ e ∈ E, e' = (e.1.rename σ, e.2.rename σ))
+    (h : Inf.unify f E [] = .ok S)
+    (hwd : ∀ x x', σ x = σ x' → Inf.closeUnit S x = Inf.closeUnit S x')
+    (hbad : Inf.unify f' E' [] = .clash ∨ Inf.unify f' E' [] = .occurs) : False :=
+  Inf.renaming_accepts σ hsur h hwd hbad
+
+/-- non-vacuity of `roundtrip_nodemap_partial`: a plan that is *not* in canonical form — the unit
+node twice (one identity root at two nodes, written once), out of post-order — satisfies its
+hypotheses for any annotations that give the two `unit` nodes one identity and the `comp` node
+another -/
+example (a c : Annot) (hne : a.ihr ≠ c.ihr) :
+    let p : Plan := #[Node.unit, Node.unit, Node.comp 1 0]
+    let an : Array Annot := #[a, a, c]
+    an.size = p.size ∧ 0 < p.size ∧ PlanBackward p ∧ PayloadOk p ∧ EncCongr p an := by
+  intro p an
+  have hdom : ∀ t, EncDom p t → t = 0 ∨ t = 2 ∨ t = 4 := by
+    intro t ht
+    rcases ht with ⟨h2, hlt⟩ | ⟨h2, x, h, hp | hp⟩
+    · have : t / 2 < 3 := hlt
+      omega
+    · have : t / 2 < 3 := by
+        rcases Nat.lt_or_ge (t / 2) 3 with h' | h'
+        · exact h'
+        · rw [Array.getElem?_eq_none (by simpa [p] using h')] at hp; cases hp
+      have : t / 2 = 0 ∨ t / 2 = 1 ∨ t / 2 = 2 := by omega
+      rcases this with e | e | e <;> rw [e] at hp <;> simp [p] at hp
+    · have : t / 2 < 3 := by
+        rcases Nat.lt_or_ge (t / 2) 3 with h' | h'
+        · exact h'
+        · rw [Array.getElem?_eq_none (by simpa [p] using h')] at hp; cases hp
+      have : t / 2 = 0 ∨ t / 2 = 1 ∨ t / 2 = 2 := by omega
+      rcases this with e | e | e <;> rw [e] at hp <;> simp [p] at hp
+  refine ⟨rfl, by decide, ?_, ?_, ?_⟩
+  · intro i nd hp cc hc
+    have hi : i < 3 := by
+      rcases Nat.lt_or_ge i 3 with h' | h'
+      · exact h'
+      · rw [Array.getElem?_eq_none (by simpa [p] using h')] at hp; cases hp
+    have : i = 0 ∨ i = 1 ∨ i = 2 := by omega
+    rcases this with rfl | rfl | rfl <;> simp [p] at hp <;> subst hp <;> simp [Node.children] at hc
+    omega
+  · intro i nd hp
+    have hi : i < 3 := by
+      rcases Nat.lt_or_ge i 3 with h' | h'
+      · exact h'
+      · rw [Array.getElem?_eq_none (by simpa [p] using h')] at hp; cases hp
+    have : i = 0 ∨ i = 1 ∨ i = 2 := by omega
+    rcases this with rfl | rfl | rfl <;> simp [p] at hp <;> subst hp <;> trivial
+  · intro t t' ht ht' hk
+    rcases hdom t ht with rfl | rfl | rfl <;> rcases hdom t' ht' with rfl | rfl | rfl <;>
+      simp [encKey, encChildren, p, an] at hk ⊢ <;> first | exact absurd hk hne | exact absurd hk.symm hne
 
 /-- **Round trip, assembled** (about the functions the driver runs: `Prog.encode`, redeem mode, and
 `Prog.decodeRedeem`).  Let `p` be a plan with arrows, annotations and witness bit strings that is in
@@ -217,7 +356,94 @@ theorem compWitnessUnit_canonical :
     subst hj
     exact ⟨[], .unit, by simp, by rfl⟩
 
+/-- **Commitment-time round trip, assembled** (about the functions the driver runs: `Prog.encode` in
+commit mode — what `enc C` runs, the model of `CommitNode::to_vec_without_witness` — and
+`Prog.decodeCommit`, the model of `CommitNode::decode`).  Let `p` be a plan with arrows,
+commitment-time annotations `an` (identity roots computed without witness data) and commitment
+roots `cm` that is in the commitment-time decoder's canonical form (`Prog.CanonicalCommitPlan`,
+witnessed by a wire node list `N`): `N` is a non-empty list of fewer than 2^32 well-formed nodes that
+passes the canonical-order check and converts to `p`; no disconnect node has both children; `p` is
+well typed as a 1 → 1 program with exactly these arrows; `an` and `cm` are the annotations and
+commitment roots of `p`; the sharing check `is_shared_as::<MaxSharing>` passes; the root's identity
+root is not that of one of its sub-expressions.  Then
+
+* the encoder (commit mode, any witness assignment) writes exactly `N` (byte padded), and
+* `decodeCommit` accepts these bytes and returns the same plan and the same commitment roots at
+  every node (its annotations — identity roots — are recomputed from the same plan and the same
+  inferred arrows, so they are `an` again).
+
+Not covered: a disconnect node with both children (the commit-mode encoder writes `disc1 a` and the
+decoder returns a one-child disconnect: a different plan, see C02
+`commit_binary_disconnect_not_canonical`), and plans not in canonical form (`enc C` on generated
+plans out of post-order or with unshared duplicates: checked at run time against the implementation). -/
+theorem roundtrip_commit_canonical (tb : Tables) (hof : ∀ j, tb.ofName (tb.nameOf j) = some j)
+    (N : List (WNode tb.J)) (p : Plan) (arrows : Array (BM4.Ty × BM4.Ty)) (an : Array Annot)
+    (cm : Array Nat) (H : CanonicalCommitPlan tb N p arrows an cm) (wit : Nat → Option (List Bool)) :
+    encode tb.jc tb.ofName p an false wit =
+      some (padToByte (encProgram tb.jc N), padToByte ((wIdx p.toList 0).filterMap wit).flatten) ∧
+    decodeCommit tb (padToByte (encProgram tb.jc N)) = .ok (p, cm) :=
+  Prog.roundtrip_commit_canonical tb hof N p arrows an cm H wit
+
+/-- **Every program decoded at commitment time round-trips**: whatever `decodeCommit` returns is
+well typed and annotated, and — when no disconnect node has both children and the root's identity
+root is fresh, the two things `CommitNode::decode` does not check — it is in canonical form, so
+encoding it in commit mode and decoding again returns the same plan and commitment roots. -/
+theorem decodedCommit_is_canonical (tb : Tables) (prog : List Bool) (p : Plan) (cm : Array Nat)
+    (h : decodeCommit tb prog = .ok (p, cm)) :
+    ∃ N arrows an, infer tb.jetTy p true = .ok arrows ∧
+      annots tb.jetCmr tb.jetCost p arrows (fun _ => none) = some an ∧
+      (noBinDisc p = true → rootFresh p an = true → CanonicalCommitPlan tb N p arrows an cm) :=
+  Prog.decodedCommit_is_canonical tb prog p cm h
+
+/-- non-vacuity of `roundtrip_commit_canonical` on a program with several nodes, one of which
+(`witness`) is never shared at commitment time: every hypothesis of `CanonicalCommitPlan` holds for
+`comp witness unit` — here nothing about SHA-256 values is needed: only `unit` has an identity root
+at commitment time, so there is nothing it could collide with. -/
+theorem compWitnessUnit_commit_canonical :
+    ∃ an cm, CanonicalCommitPlan elementsTables [.witness, .unit, .comp 0 1] compWitnessUnit
+      #[(.one, .one), (.one, .one), (.one, .one)] an cm := by
+  obtain ⟨a0, a1, a2, ha, h0, h1, h2⟩ : ∃ a0 a1 a2, annots JetsE.jetCmr JetsE.jetCost compWitnessUnit
+      #[(.one, .one), (.one, .one), (.one, .one)] (fun _ => none) = some #[a0, a1, a2] ∧
+      a0.unique = true ∧ a1.unique = false ∧ a2.unique = true := by
+    simp [annots, annots.go, annotNode, compWitnessUnit]
+    exact ⟨_, _, _, ⟨rfl, rfl, rfl⟩, rfl, rfl, rfl⟩
+  obtain ⟨cm, hcm⟩ : ∃ cm, cmrs JetsE.jetCmr compWitnessUnit = some cm := by
+    simp [cmrs, cmrsGo, cmrsGoG, cmrNode, cmrNodeG, compWitnessUnit]
+  refine ⟨#[a0, a1, a2], cm, by simp, by decide, ⟨trivial, trivial, ⟨by decide, by decide⟩, trivial⟩,
+    by decide, by rfl, by simp [noBinDisc, compWitnessUnit], ?_, ha, ?_, ?_, hcm⟩
+  · have hc : constraints JetsE.jetTy compWitnessUnit true =
+        some [(.var 3, .one), (.var 1, .var 2), (.var 4, .var 0), (.var 5, .var 3), (.var 4, .one), (.var 5, .one)] := by rfl
+    have hu : ∀ n, Inf.unify (n + 7)
+        [(.var 3, .one), (.var 1, .var 2), (.var 4, .var 0), (.var 5, .var 3), (.var 4, .one), (.var 5, .one)] [] =
+        .ok [(0, .one), (5, .one), (4, .one), (1, .var 2), (3, .one)] := fun _ => rfl
+    show infer JetsE.jetTy compWitnessUnit true = .ok #[(.one, .one), (.one, .one), (.one, .one)]
+    unfold infer
+    rw [hc]
+    have : unifyFuel = (unifyFuel - 7) + 7 := by decide
+    rw [this]
+    simp only [hu]
+    congr 1
+    have : Array.range compWitnessUnit.size = #[0, 1, 2] := by decide
+    rw [this]
+    simp [Inf.closeUnit, Inf.lookup, Inf.Tm.eval, tyOfInf]
+  · simp [sharedOk, walk, compWitnessUnit, commitChildren, commitKey, h0, h1, h2, Node.children, seenLook]
+  · simp [rootFresh, compWitnessUnit, commitKey, h2]
+    intro x _
+    split <;> rfl
+
+example : ∃ an cm pb wb, encode JetsE.jc JetsE.ofName compWitnessUnit an false (fun _ => none) = some (pb, wb) ∧
+    decodeCommit elementsTables pb = .ok (compWitnessUnit, cm) := by
+  obtain ⟨an, cm, H⟩ := compWitnessUnit_commit_canonical
+  obtain ⟨h1, h2⟩ := roundtrip_commit_canonical elementsTables elements_ofName_nameOf _ _ _ _ _ H (fun _ => none)
+  exact ⟨an, cm, _, _, h1, h2⟩
+
 #print axioms roundtrip_canonical
+#print axioms roundtrip_nodemap_partial
+#print axioms roundtrip_nodemap_convert
+#print axioms reinference_along_renaming
+#print axioms roundtrip_commit_canonical
+#print axioms decodedCommit_is_canonical
+#print axioms compWitnessUnit_commit_canonical
 #print axioms compWitnessUnit_canonical
 #print axioms decoded_is_canonical
 #print axioms unit_canonical
